@@ -5,7 +5,32 @@ import vlib
 
 ET = 2_000_000_000
 ZERO = -62135596800 * 10**9
-HARNESS = {"zz_verif_test.go": os.path.join(vlib.ROOT, "harness", "timesafeguard", "zz_verif_test.go")}
+HARNESS = {"zz_verif_test.go": os.path.join(vlib.ROOT, "harness", "timesafeguard", "zz_verif_test.go"),
+           "zz_verif_net_test.go": os.path.join(vlib.ROOT, "harness", "timesafeguard", "zz_verif_net_test.go")}
+
+# end-to-end scenarios for the part that is not modelled (collectTime / getServerTime over HTTPS): peers given by
+# clock offset in ms or `down`; a peer that answers with a clock >= 2 s off must lead to a refusal whatever
+# the other peers do, unreachable peers are ignored
+NET = [("net 0 300", False), ("net 0 down", False), ("net down down", False), ("net 0 3600000", True), ("net 3600000 down", True), ("net down 0 -4000", True),
+       ("net -3600000 0 down down", True), ("net 500 -500 down", False), ("net down 2600 0", True)]
+
+
+def net_stage(run, exe):
+    import shutil
+    d = vlib.workdir("c19net")
+    opsf, outp = os.path.join(d, "ops.txt"), os.path.join(d, "out.txt")
+    open(opsf, "w").write("\n".join(o for o, _ in NET) + "\n")
+    rc, out = vlib.run_harness(exe, opsf, outp, env_extra={"VERIF_TMP": d}, run="TestVerifTimeNet", timeout=120)
+    gl = vlib.read_lines(outp) if os.path.exists(outp) else []
+    shutil.rmtree(d, ignore_errors=True)
+    if rc != 0 or len(gl) != len(NET):
+        return ("harness", "network-level harness: exit %d, %d lines: %s" % (rc, len(gl), out[-600:]), None)
+    for (o, must_refuse), g in zip(NET, gl):
+        if must_refuse and g.startswith("accept"):
+            return ("net-accepted", "`%s`: the node considers itself in sync although a peer that answered is more than 2 s off" % o, o)
+        if not must_refuse and not g.startswith("accept"):
+            return ("net-refused", "`%s`: refused although every peer that answered is within bounds: %s" % (o, g[:200]), o)
+    return None
 
 
 def gen_measurement(rng):
@@ -92,10 +117,14 @@ def check(run):
                 nontrivial.add(c[0])
             if pr and bad is None:
                 bad = (i, pr)
+        nb = net_stage(run, exe)
+        run.obligation("end to end: SynchronizedWithNetwork over HTTPS against fake peers (in sync / off / unreachable), %d scenarios" % len(NET), nb is None, nb[1] if nb else "")
+        if nb is not None and bad is None:
+            run.violation("oracle:" + nb[0], nb[1], {"kind": "timenet", "op": nb[2], "why": nb[1]}, nb[0] != "harness")
         if bad is not None:
             i, pr = bad
             run.violation("oracle:" + pr[0].split(" ")[0], pr[0], {"kind": "time", "op": ops[i], "measurements": cases[i][1], "go_output": gl[i], "problems": pr}, True)
-        elif not corr_ok or not proved:
+        elif (not corr_ok or not proved) and nb is None:
             failed = [o[0] for o in run.failed_obligations()]
             run.violation("broken:" + (failed[0] if failed else "?")[:40], "proof or correspondence no longer checks: %s" % failed,
                           {"kind": "time", "broken": failed, "first_diff_op": ops[di] if di is not None and di < len(ops) else None,
@@ -107,7 +136,7 @@ def check(run):
         run.violation("broken:harness-build", "the Go harness no longer builds against /repo", {"log": out[-2000:]}, False)
     run.assumptions += ["time.Time is modelled as unbounded integer nanoseconds; time.Time.Sub saturates at ±(2^63-1) ns as documented",
                         "the peer's answer is produced at a local instant between Start and End (network delays arbitrary, non-negative)",
-                        "collectTime/getServerTime (HTTP, goroutines) are not modelled: a failed request leaves Result zero"]
+                        "collectTime/getServerTime (HTTP, goroutines) are not modelled: a failed request leaves Result zero (exercised end to end against fake HTTPS peers)"]
     return run.finish(rule="generated measurement sets (true offset, request delay, response delay; extremes ±2^63, year 1, year 2400); non-trivial = set containing an in-bound answered peer or a refusal; distinct by op text")
 
 
@@ -116,6 +145,15 @@ def replay(run, path):
     r = json.load(open(path))
     op = r.get("replay", {}).get("op")
     ok, exe, out = vlib.build_harness("timesafeguard", "internal/timesafeguard", HARNESS)
+    if r.get("replay", {}).get("kind") == "timenet":
+        import shutil
+        d = vlib.workdir("c19r")
+        opsf, outp = os.path.join(d, "ops.txt"), os.path.join(d, "out.txt")
+        open(opsf, "w").write(op + "\n")
+        vlib.run_harness(exe, opsf, outp, env_extra={"VERIF_TMP": d}, run="TestVerifTimeNet", timeout=60)
+        print("op:", op, "\ngo:", vlib.read_lines(outp) if os.path.exists(outp) else None)
+        shutil.rmtree(d, ignore_errors=True)
+        return 0
     gl, ll, di, err = vlib.differential(run, "replay", [op], exe, "time")
     print("op:  ", op)
     print("go:  ", gl)
